@@ -59,8 +59,10 @@ def gen_expr(rng, root_name):
         preds = []
         used = set()
         for _ in range(rng.choice([0, 0, 1, 1, 2, 2, 3, 4])):
-            apfx = rng.choice(["", "", "p:"])
-            an = rng.choice(["k", "m", "n"])
+            # unprefixed, the caller's prefix, the reserved xml prefix and one of the library's common prefixes (both are
+            # bound without the caller declaring them)
+            apfx = rng.choice(["", "", "", "p:", "p:", "xml:", "xlink:"])
+            an = rng.choice(["k", "m", "n"]) if apfx not in ("xml:", "xlink:") else rng.choice(["lang", "id", "href"])
             if (apfx, an) in used:
                 continue
             used.add((apfx, an))
@@ -241,6 +243,15 @@ def judge(run: Run, stream, case, before, ctx, out, problems, model):
     if not known:
         for pr in problems:
             run.violation(stream, case, pr)
+        if out.get("err") == "XPathEvaluationError":
+            # an evaluation error is a legitimate rejection only for a prefix that nothing binds: the caller's mapping,
+            # the reserved xml prefix and the library's common prefixes are bound
+            import re as _re
+
+            used = set(_re.findall(r"([A-Za-z_][\w.-]*):(?!:)", case["expr"]))
+            bound = {"xml", "xlink"} | ({"p"} if case["ns"] in ("p", "ponly") else set())
+            if used <= bound:
+                run.violation(stream, case, {"why": "call refused with XPathEvaluationError although every prefix of the expression is bound"})
         if out.get("err") == "InvalidOperation" and not case["expr"].startswith("/"):
             run.violation(stream, case, {"why": "InvalidOperation for a relative path"})
         if out.get("err") not in (None, "ValueError", "AmbiguousTreeError", "XPathEvaluationError", "parse", "InvalidOperation"):
